@@ -1529,6 +1529,11 @@ def _min(eng, st, args, kwargs, line):
 for _t in ('dict', 'list', 'tuple', 'object', 'set'):
     def _mk(name):
         def fn(eng, st, args, kwargs, line):
+            if name == 'set' and not args and not kwargs:
+                # a new empty set: an opaque object (only ever stored; set operations have no
+                # library contract, so any use of it is out-of-subset)
+                yield st, V(Opaque('Set'), z3.Int(eng.name('newset')))
+                return
             raise core.EngineError('%s() constructor call' % name)
         return fn
     LIB[_t] = _mk(_t)
@@ -1965,6 +1970,23 @@ def _unquote(eng, st, args, kwargs, line):
     if len(args) != 1 or kwargs or args[0].ty.kind != 'str':
         raise core.EngineError('urllib.parse.unquote call form at line %d' % line)
     yield st, vstr(z3.Function('url_unquote', S, S)(args[0].t))
+
+
+@lib('urllib.parse.parse_qsl')
+def _parse_qsl(eng, st, args, kwargs, line):
+    """parse_qsl(s): some list of (name, value) pairs determined by s - nothing more is assumed
+    (in particular not that every argument of s is kept: blank values are dropped by default)."""
+    if len(args) != 1 or kwargs or args[0].ty.kind != 'str':
+        raise core.EngineError('urllib.parse.parse_qsl call form at line %d' % line)
+    yield st, V(List(SS_T), z3.Function('url_parse_qsl', S, z3.SeqSort(SS))(args[0].t))
+
+
+@lib('urllib.parse.urlencode')
+def _urlencode(eng, st, args, kwargs, line):
+    """urlencode(pairs): some string determined by the list of pairs - nothing more is assumed."""
+    if len(args) != 1 or kwargs or args[0].ty.kind != 'list' or args[0].ty.args[0].kind != 'ss':
+        raise core.EngineError('urllib.parse.urlencode call form at line %d' % line)
+    yield st, vstr(z3.Function('url_urlencode', z3.SeqSort(SS), S)(args[0].t))
 
 
 @lib('time.time')
